@@ -121,6 +121,10 @@ fn item_id(item: &str) -> serde_json::Value {
 /// Runs every item (one JSON line each) in worker children; returns one JSON line per item, in
 /// input order. A hang is only recorded after the item hung again alone with 5x the limit.
 pub fn run_items(items: Vec<String>, jobs: usize, timeout_ms: u64, env: Vec<(String, String)>) -> Vec<String> {
+    // circuit breaker: a defect that hangs (or kills) a whole family of items must not turn one run into hours;
+    // after MAX_BAD confirmed hangs/crashes the remaining items are reported as Skipped (the run is a violation anyway)
+    let max_bad: usize = std::env::var("VERIF_MAX_BAD").ok().and_then(|s| s.parse().ok()).unwrap_or(12);
+    let bad = Arc::new(AtomicUsize::new(0));
     let n = items.len();
     let items = Arc::new(items);
     let results: Arc<Mutex<Vec<Option<String>>>> = Arc::new(Mutex::new(vec![None; n]));
@@ -132,6 +136,7 @@ pub fn run_items(items: Vec<String>, jobs: usize, timeout_ms: u64, env: Vec<(Str
         let results = results.clone();
         let next = next.clone();
         let env = env.clone();
+        let bad = bad.clone();
         handles.push(std::thread::spawn(move || {
             let mut w: Option<Worker> = None;
             loop {
@@ -140,6 +145,10 @@ pub fn run_items(items: Vec<String>, jobs: usize, timeout_ms: u64, env: Vec<(Str
                     break;
                 }
                 let item = &items[i];
+                if bad.load(Ordering::SeqCst) >= max_bad {
+                    results.lock().unwrap()[i] = Some(serde_json::json!({"id": item_id(item), "outcome": "Skipped"}).to_string());
+                    continue;
+                }
                 let t = Duration::from_millis(timeout_ms);
                 let out = match attempt(&mut w, item, t, &env) {
                     Attempt::Done(l) => l,
@@ -150,8 +159,12 @@ pub fn run_items(items: Vec<String>, jobs: usize, timeout_ms: u64, env: Vec<(Str
                         kill(&mut w2);
                         match (first, r) {
                             (_, Attempt::Done(l)) => l,
-                            (_, Attempt::Hang) => serde_json::json!({"id": item_id(item), "outcome": "Hang"}).to_string(),
+                            (_, Attempt::Hang) => {
+                                bad.fetch_add(1, Ordering::SeqCst);
+                                serde_json::json!({"id": item_id(item), "outcome": "Hang"}).to_string()
+                            }
                             (_, Attempt::Crash(st)) => {
+                                bad.fetch_add(1, Ordering::SeqCst);
                                 serde_json::json!({"id": item_id(item), "outcome": "Crash", "status": st}).to_string()
                             }
                         }
